@@ -1,6 +1,7 @@
 package main
 
 import (
+	"regexp"
 	"fmt"
 	"go/constant"
 	"go/types"
@@ -178,7 +179,17 @@ func (e *SpecEnv) lenAdd(a, b string) string {
 	if b == "0" {
 		return a
 	}
+	// off + (j - off) = j (re-based bound variables, see quant)
+	if strings.HasPrefix(b, "(- ") && strings.HasSuffix(b, " "+a+")") {
+		if inner := b[3 : len(b)-len(a)-2]; inner != "" && balanced(inner) {
+			return inner
+		}
+	}
 	return sx("+", a, b)
+}
+
+func mentionsIdent(x Expr, name string) bool {
+	return regexp.MustCompile(`\b` + regexp.QuoteMeta(name) + `\b`).MatchString(x.String())
 }
 func (e *SpecEnv) lenSub(a, b string) string {
 	if e.mode() == ModeBV {
@@ -487,6 +498,10 @@ func (e *SpecEnv) index(x *EIndex) Val {
 			k := e.fx.elemKey(t.Elem(), c)
 			out.C = append(out.C, sx("select", sx("select", e.heapRead(k), v.C[0]), idx))
 		}
+		// elements of Go slices are well-typed values (ground reads only)
+		if e.side != nil && !strings.Contains(idx, "q$") && !strings.Contains(v.C[0], "q$") {
+			*e.side = append(*e.side, e.fx.typingFacts(out)...)
+		}
 		return out
 	case *types.Map:
 		_, vks, _, vcs := e.fx.mapKeys(t)
@@ -681,6 +696,25 @@ func (e *SpecEnv) quant(x *EQuant) Val {
 		}
 		vars[b.Name] = Val{T: vt, C: []string{name}}
 	}
+	// trigger re-basing: a trigger s[k] over a slice with a symbolic offset reads address (+ off k); patterns with
+	// arithmetic are fragile (solvers normalise sums).  The bound variable is replaced by the address j = off + k, so
+	// that the trigger becomes (select array j); the quantifier ranges over the same set (k = j - off).
+	if e.mode() == ModeInt && len(x.Vars) == 1 && len(x.Triggers) == 1 && len(x.Triggers[0]) == 1 {
+		if ix, ok := x.Triggers[0][0].(*EIndex); ok {
+			if id, isID := ix.I.(*EIdent); isID && id.Name == x.Vars[0].Name && !mentionsIdent(ix.X, id.Name) {
+				func() {
+					defer func() { recover() }()
+					sv := e.eval(ix.X)
+					if _, isSlice := sv.T.Underlying().(*types.Slice); isSlice && len(sv.C) == 4 && sv.C[1] != "0" {
+						if _, isLit := litVal(sv.C[1]); !isLit {
+							old := vars[id.Name]
+							vars[id.Name] = Val{T: old.T, C: []string{sx("-", old.C[0], sv.C[1])}}
+						}
+					}
+				}()
+			}
+		}
+	}
 	ne := e.with(vars)
 	var localSide []string
 	if e.side != nil {
@@ -723,6 +757,14 @@ func (e *SpecEnv) quant(x *EQuant) Val {
 		}
 		if !okTrig {
 			continue // not a legal pattern in this context (e.g. a revealed definition)
+		}
+		if len(tr) == 1 && len(ts) > 1 {
+			// one trigger term with several components (a slice, an interface ...): each component alone triggers -
+			// a goal that talks about one component must still be able to instantiate
+			for _, c := range ts {
+				pats = append(pats, ":pattern ("+c+")")
+			}
+			continue
 		}
 		pats = append(pats, ":pattern ("+strings.Join(ts, " ")+")")
 	}
@@ -1015,6 +1057,14 @@ func (e *SpecEnv) call(x *ECall) Val {
 		}
 		v := e.eval(x.Args[0])
 		return boolVal(sx(">", v.C[0], e.fx.entryTop))
+	case "allocated":
+		// the reference denotes an object that exists in the state the expression is evaluated in (or nil)
+		v := e.eval(x.Args[0])
+		top := e.cur["alloc$top"]
+		if top == "" {
+			sfail("allocated() outside a state")
+		}
+		return boolVal(and(sx("<=", "0", v.C[0]), sx("<=", v.C[0], top)))
 	case "fresh":
 		v := e.eval(x.Args[0])
 		// allocated after function entry
